@@ -473,6 +473,56 @@ async fn tls_scenario(which: &str, auth: &str) -> Result<&'static str, String> {
 }
 
 // ------------------------------------------------------------------------------------------------
+// the QUIC / HTTP/3 path
+// ------------------------------------------------------------------------------------------------
+
+async fn quic_scenario(which: &str, auth: &str) -> Result<&'static str, String> {
+    let sni = match which {
+        "plain" => "m.t".to_string(),
+        "good-label" => format!("{SNI_GOOD}.m.t"),
+        "bad-label" => format!("{SNI_BAD}.m.t"),
+        _ => format!("{SNI_BAD}.zz.t"),
+    };
+    let cfg = Cfg { clients: vec![(USER.into(), PASS.into()), (USER2.into(), PASS2.into())], ..Cfg::default() };
+    let ep = super::cq::start_with_auth(cfg, Some(Arc::new(SniAware(RegistryBasedAuthenticator::new(&clients()))))).await?;
+    let mut cl = super::quic::QuicClient::new(ep.addr, &super::quic::ClientOpts { sni, ..Default::default() })?;
+    if !cl.handshake(Duration::from_secs(3)).await {
+        return Ok("no-handshake");
+    }
+    let mut headers: Vec<(String, String)> = vec![("authorization".into(), format!("Digest {AUTHZ}")), ("cookie".into(), format!("sid={COOKIE}"))];
+    if let Some(a) = proxy_auth(auth) {
+        headers.push(("proxy-authorization".into(), String::from_utf8_lossy(&a).into_owned()));
+    }
+    let mut out = "no-response";
+    for (method, authority, path) in [("CONNECT", "_check", None), ("GET", "_udp2", Some("/")), ("CONNECT", "noport.c20.test", None), ("GET", "m.t", Some("/speed/1mb.bim"))] {
+        let Ok(id) = cl.request(method, authority, path, &headers, method == "GET") else { continue };
+        let r = cl.response(id, Duration::from_millis(1500), 4096, None).await;
+        if let Some(s) = r.status {
+            out = if s == 200 { "200" } else if s == 407 { "407" } else { "other-status" };
+        }
+    }
+    cl.close();
+    door::spin(50).await;
+    Ok(out)
+}
+
+const QUIC_SNIS: [&str; 4] = ["plain", "good-label", "bad-label", "label-on-unknown-host"];
+
+fn run_quic(which: &str, auth: &str) -> Result<(&'static str, usize, Vec<Violation>), Violation> {
+    let case = json!({"kind":"quic","sni":which,"auth":auth});
+    let _g = watch::enter(format!("C20:wedged:quic:{which}"), case.to_string());
+    logcap::begin();
+    let (w, a) = (which.to_string(), auth.to_string());
+    let r = super::guarded(|| rt::run_real(async move { quic_scenario(&w, &a).await }));
+    let recs = logcap::end();
+    match r {
+        Err(p) => Err(Violation::new("C20:machinery", format!("scenario panicked: {p}"), case)),
+        Ok(Err(e)) => Err(Violation::new("C20:machinery", e, case)),
+        Ok(Ok(o)) => Ok((o, recs.len(), scan(&recs, &case))),
+    }
+}
+
+// ------------------------------------------------------------------------------------------------
 // start-up: the configured passwords pass through the settings reader and Core::new
 // ------------------------------------------------------------------------------------------------
 
@@ -644,6 +694,25 @@ pub fn run(tier: Tier) -> i32 {
     rep.sub.push(json!({"sub":"tls-accept-path","scenarios":r2.evaluations,"completed":r2.completed,"classes":r2.classes.keys().collect::<Vec<_>>(),
         "domain":format!("real TLS handshakes through Core::on_new_tls_connection with SNI {TLS_SNIS:?} x Proxy-Authorization {AUTHS:?}")}));
     rep.violations(r2.violations);
+    let mut quic_cases = vec![];
+    for w in QUIC_SNIS {
+        for a in AUTHS {
+            quic_cases.push((w, a));
+        }
+    }
+    let r3 = sweep_dyn(quic_cases.len() as u64, 1, Duration::from_secs(600), rt::workers(), |i| {
+        let (w, a) = quic_cases[i as usize];
+        let (o, n, viol) = run_quic(w, a)?;
+        records.fetch_add(n as u64, std::sync::atomic::Ordering::Relaxed);
+        let leaked = !viol.is_empty();
+        all_viol.lock().unwrap().extend(viol);
+        Ok(Cow::Owned(format!("quic:{w}:{o}{}", if leaked { ":leak" } else { "" })))
+    });
+    rep.add("evaluations", r3.evaluations);
+    rep.add("distinct_nontrivial", r3.classes.len() as u64);
+    rep.sub.push(json!({"sub":"quic-path","scenarios":r3.evaluations,"completed":r3.completed,"classes":r3.classes.keys().collect::<Vec<_>>(),
+        "domain":format!("QUIC handshakes through the real UDP listener with SNI {QUIC_SNIS:?} x Proxy-Authorization {AUTHS:?}; on each connection CONNECT _check, GET on _udp2, CONNECT without port and a bad speedtest path, all carrying the Authorization and Cookie canaries")}));
+    rep.violations(r3.violations);
     let mut st_classes = vec![];
     for w in STARTUPS {
         match run_startup(w) {
@@ -669,7 +738,7 @@ pub fn run(tier: Tier) -> i32 {
     rep.sample(json!({"kind":"scenario","scenario":scs.first()}));
     rep.sample(json!({"kind":"scenario","scenario":scs.get(scs.len() / 2)}));
     rep.sample(json!({"kind":"tls","sni":"label-on-unknown-host","auth":"other-scheme"}));
-    rep.assume("log records emitted on other threads than the one driving the scenario (none of the driven paths has any) and by the QUIC path are not seen");
+    rep.assume("log records emitted on other threads than the one driving the scenario (none of the driven paths has any) are not seen");
     if n_rec == 0 {
         rep.violation(Violation::new("C20:machinery", "the capturing logger saw no records at all", json!({})));
     }
@@ -684,6 +753,7 @@ pub fn replay(case: &serde_json::Value) -> Result<(), Violation> {
             let sc: Scn = serde_json::from_value(case["scenario"].clone()).map_err(|_| bad())?;
             run_scn(&sc)?.2
         }
+        Some("quic") => run_quic(QUIC_SNIS.iter().find(|s| Some(**s) == case["sni"].as_str()).ok_or_else(bad)?, AUTHS.iter().find(|s| Some(**s) == case["auth"].as_str()).ok_or_else(bad)?)?.2,
         Some("startup") => run_startup(STARTUPS.iter().find(|s| Some(**s) == case["which"].as_str()).ok_or_else(bad)?)?.2,
         Some("tls") => run_tls(TLS_SNIS.iter().find(|s| Some(**s) == case["sni"].as_str()).ok_or_else(bad)?, AUTHS.iter().find(|s| Some(**s) == case["auth"].as_str()).ok_or_else(bad)?)?.2,
         _ => return Err(bad()),
